@@ -647,3 +647,48 @@ Ltac frame_step :=
   | |- (if ?c then _ else _) = _ => destruct c
   end.
 Ltac frame := repeat frame_step.
+
+(* ---------- sub-slice operations ---------- *)
+
+Lemma wb_on_from_tail h t lo f : lo = blen h ->
+  wb_on_from (h ++ t) lo f = do s' <- f t; Ok (h ++ s').
+Proof.
+  intros ->. unfold wb_on_from. rewrite wb_from_app_r. cbn [obind].
+  rewrite firstn_app. unfold blen. rewrite Nat2Z.id, firstn_all.
+  replace (length h - length h)%nat with 0%nat by lia. cbn [firstn]. rewrite app_nil_r. reflexivity.
+Qed.
+
+Lemma wb_from_inv l lo s : wb_from l lo = Ok s ->
+  0 <= lo <= blen l /\ s = skipn (Z.to_nat lo) l /\ blen s = blen l - lo.
+Proof.
+  unfold wb_from. destruct ((0 <=? lo) && (lo <=? blen l)) eqn:E; [|discriminate].
+  intros H; injection H as <-. bsplit. repeat split; try lia. apply blen_skipn; lia.
+Qed.
+
+Lemma wb_from_bytes l lo s : bytes_ok l = true -> wb_from l lo = Ok s -> bytes_ok s = true.
+Proof. intros Hl H. apply wb_from_inv in H. destruct H as (_ & -> & _). apply bytes_ok_skipn, Hl. Qed.
+
+Lemma wb_upto_all' l n : n = blen l -> wb_upto l n = Ok l.
+Proof. intros ->. apply wb_upto_all. Qed.
+
+(* ---------- reads of octets / 16-bit words from byte strings ---------- *)
+
+Lemma wb_get_u8_byte bs i : 0 <= i < blen bs -> bytes_ok bs = true ->
+  exists v, wb_get_u8 bs i = Ok v /\ 0 <= v < 256.
+Proof.
+  intros Hi Hb. rewrite wb_get_u8_ok by lia. eexists; split; [reflexivity|].
+  apply bytes_ok_nth; [assumption | unfold blen in *; lia].
+Qed.
+
+Lemma wb_get_u16_word bs f : 0 <= fst f -> fst f + 2 <= snd f -> snd f <= blen bs ->
+  bytes_ok bs = true -> exists v, wb_get_u16 bs f = Ok v /\ 0 <= v < 65536.
+Proof.
+  intros H1 H2 H3 Hb. unfold wb_get_u16, wb_get_be. rewrite wb_sub_ok by lia. cbn [obind].
+  set (s := firstn _ _).
+  assert (Hs : blen s = snd f - fst f) by (unfold s; rewrite blen_firstn; [lia | rewrite blen_skipn; lia]).
+  assert (Hbs : bytes_ok s = true) by (apply bytes_ok_firstn, bytes_ok_skipn, Hb).
+  rewrite Hs. zbool. eexists; split; [reflexivity|]. zfold.
+  destruct s as [|a [|b' s']]; [unfold blen in Hs; cbn in Hs; lia | unfold blen in Hs; cbn in Hs; lia |].
+  cbn [firstn]. cbn [bytes_ok forallb] in Hbs. bsplit. rewrite be_dec2. lia.
+Qed.
+
